@@ -1,3 +1,106 @@
-import Mrpro.Model.Ops
+import Mrpro.Model.OpsND
+import Mrpro.Lemmas.Basic
+import Mrpro.Lemmas.Action
+/-! # C09 — elementary operators compute exactly their documented mathematical action -/
 namespace C09
+open M
+variable {K : Type} [CommRing K] [StarRing K]
+
+/-! ### zero padding / cropping -/
+
+/-- the centre sample (index `n/2`) stays the centre sample, for padding *and* cropping, all parities -/
+theorem padCrop_centre (old new : Nat) (ho : 0 < old) (hn : 0 < new) (x : Nat → K) :
+    padCrop old new x (new / 2) = x (old / 2) := M.padCrop_centre old new ho hn x
+
+/-- …and `new/2 − old/2` is the *only* shift with that property -/
+theorem padCrop_centre_iff (old new : Nat) (ho : 0 < old) (s : Int) :
+    (∀ x : Nat → Int, padCropWith s old x (new / 2) = x (old / 2)) ↔ s = padShift old new :=
+  M.padCrop_centre_iff old new ho s
+
+/-- witness: the rule of the pinned commit (`trunc(diff/2)` on the left) is a different shift for
+odd → even padding, so it moved the centre (repaired by a `fix:` commit) -/
+theorem padShiftShipped_ne : padShiftShipped 3 6 ≠ padShift 3 6 ∧ padShiftShipped 4 3 ≠ padShift 4 3 := by decide
+
+/-- crop-after-pad is the identity -/
+theorem crop_pad_id (old new : Nat) (h : old ≤ new) (x : Nat → K) (i : Nat) (hi : i < old) :
+    padCrop new old (padCrop old new x) i = x i := M.crop_pad_id old new h x i hi
+
+/-- padded region is zero: outside the embedded block everything is 0 -/
+theorem pad_zero_outside (old new : Nat) (x : Nat → K) (j : Nat)
+    (hj : (j : Int) < padShift old new ∨ padShift old new + old ≤ (j : Int)) :
+    padCrop old new x j = 0 := M.pad_zero_outside old new x j hj
+
+/-! ### Cartesian sampling -/
+
+/-- `S Sᴴ = identity` on samples that are inside the grid and hit by exactly one sample -/
+theorem gather_scatterAdd_unique (S G : Nat) (idx : Nat → Option Nat) (y : Nat → K) (s g : Nat)
+    (hs : s < S) (hg : g < G) (h : idx s = some g) (huniq : ∀ s', s' < S → idx s' = some g → s' = s) :
+    gather G idx (scatterAdd S idx y) s = y s := M.gather_scatterAdd_unique S G idx y s g hs hg h huniq
+
+/-- samples outside the grid read zero -/
+theorem gather_outside (G : Nat) (idx : Nat → Option Nat) (x : Nat → K) (s : Nat)
+    (h : idx s = none ∨ ∃ g, idx s = some g ∧ G ≤ g) : gather G idx x s = 0 := M.gather_outside G idx x s h
+
+/-- `Sᴴ S` is diagonal: multiplication by the number of samples on each grid point … -/
+theorem scatterAdd_gather_mask (S G : Nat) (idx : Nat → Option Nat) (x : Nat → K) (g : Nat) (hg : g < G) :
+    scatterAdd S idx (gather G idx x) g
+      = (sumTo S (fun s => if idx s = some g then (1 : K) else 0)) * x g := M.scatterAdd_gather_mask S G idx x g hg
+
+/-- … which is a 0/1 mask when no grid point is sampled twice -/
+theorem mask_zero_one (S : Nat) (idx : Nat → Option Nat) (g : Nat)
+    (hinj : ∀ s s', s < S → s' < S → idx s = some g → idx s' = some g → s = s') :
+    sumTo S (fun s => if idx s = some g then (1 : K) else 0) = 0 ∨
+    sumTo S (fun s => if idx s = some g then (1 : K) else 0) = 1 := M.mask_zero_one S idx g hinj
+
+/-- the k-space centre `k = 0` is grid index `n/2` -/
+theorem axisIdx_centre (n : Nat) (hn : 0 < n) : axisIdx n 0 = some (n / 2) := M.axisIdx_centre n hn
+
+/-- the flat index `kz·Ny·Nx + ky·Nx + kx` is inside the grid and injective on in-range coordinates -/
+theorem ravel3_lt (nz ny nx : Nat) (kz ky kx : Int) (f : Nat) (h : ravel3 nz ny nx kz ky kx = some f) :
+    f < nz * ny * nx := M.ravel3_lt nz ny nx kz ky kx f h
+theorem ravel3_injective (nz ny nx : Nat) (kz ky kx kz' ky' kx' : Int) (f : Nat)
+    (h : ravel3 nz ny nx kz ky kx = some f) (h' : ravel3 nz ny nx kz' ky' kx' = some f) :
+    kz = kz' ∧ ky = ky' ∧ kx = kx' := M.ravel3_injective nz ny nx kz ky kx kz' ky' kx' f h h'
+
+/-! ### finite differences: the *generated* kernels are the documented stencils -/
+
+theorem fd_forward_kernel : Gen.fdKernel_forward = [0, -1, 1] := by decide
+theorem fd_backward_kernel : Gen.fdKernel_backward = [-1, 1, 0] := by decide
+theorem fd_central_kernel : Gen.fdKernel_central = [-1/2, 0, 1/2] := by decide +kernel
+
+/-- forward difference, zero boundary: `x[i+1] − x[i]`, with `x[n] = 0` -/
+theorem fd_forward_stencil_zeros (n : Nat) (x : Nat → Rat) (i : Nat) (hi : i < n) :
+    corr3L false Gen.fdKernel_forward n x i = (if i + 1 < n then x (i + 1) else 0) - x i :=
+  M.fd_forward_stencil_zeros n x i hi
+theorem fd_forward_stencil_circular (n : Nat) (x : Nat → Rat) (i : Nat) (hi : i < n) :
+    corr3L true Gen.fdKernel_forward n x i = x ((i + 1) % n) - x i := M.fd_forward_stencil_circular n x i hi
+/-- backward difference: `x[i] − x[i−1]`, with `x[−1] = 0` -/
+theorem fd_backward_stencil_zeros (n : Nat) (x : Nat → Rat) (i : Nat) (hi : i < n) :
+    corr3L false Gen.fdKernel_backward n x i = x i - (if 0 < i then x (i - 1) else 0) :=
+  M.fd_backward_stencil_zeros n x i hi
+theorem fd_backward_stencil_circular (n : Nat) (x : Nat → Rat) (i : Nat) (hi : i < n) :
+    corr3L true Gen.fdKernel_backward n x i = x i - x ((i + n - 1) % n) := M.fd_backward_stencil_circular n x i hi
+/-- central difference: `(x[i+1] − x[i−1]) / 2` -/
+theorem fd_central_stencil_zeros (n : Nat) (x : Nat → Rat) (i : Nat) (hi : i < n) :
+    corr3L false Gen.fdKernel_central n x i
+      = ((if i + 1 < n then x (i + 1) else 0) - (if 0 < i then x (i - 1) else 0)) / 2 :=
+  M.fd_central_stencil_zeros n x i hi
+theorem fd_central_stencil_circular (n : Nat) (x : Nat → Rat) (i : Nat) (hi : i < n) :
+    corr3L true Gen.fdKernel_central n x i = (x ((i + 1) % n) - x ((i + n - 1) % n)) / 2 :=
+  M.fd_central_stencil_circular n x i hi
+
+/-! ### rearrange is a permutation: `ravel`/`unravel` are mutually inverse on valid indices -/
+
+theorem ravel_unravel (shape : List Nat) (f : Nat) (hf : f < prodL shape) :
+    ravel shape (unravel shape f) = f := M.ravel_unravel shape f hf
+theorem unravel_length (shape : List Nat) (f : Nat) : (unravel shape f).length = shape.length :=
+  M.unravel_length shape f
+
+/-! ### wavelet coefficient bookkeeping -/
+
+/-- the per-level size recursion of `WaveletOp` (`ceil(n/2) + L//2 − 1`) equals the DWT output length
+`⌊(n + L − 1)/2⌋` of PyWavelets for every even filter length `L` -/
+theorem wavelet_coeff_len (n L : Nat) (hL : L % 2 = 0) (hL0 : 0 < L) :
+    (n + 1) / 2 + L / 2 - 1 = (n + L - 1) / 2 := by omega
+
 end C09
